@@ -73,7 +73,7 @@ ApiContract(c) ==
                 "getdsc-listed-but-missing"} -> "error"
       [] c \in {"unpack-equals-unmarshal", "convert-equals-marshal", "encode-slice-equals-encode-each", "encode-pointer-to-slice",
                 "marshal-pointer-field", "gz-compressor-roundtrip", "close-deb-without-closer",
-                "unmarshal-empty-number-fields", "stageset-without-stages"} -> "same"
+                "unmarshal-empty-number-fields", "stageset-without-stages", "parsefile-named-pipe"} -> "same"
       [] c = "marshal-nil-pointer-field" -> "error-or-omitted"        \* a nil pointer has no text: an error, or the field left out
 ApiCases == {"decode-nonpointer", "decode-into-int", "unmarshal-float-field", "unmarshal-nested-struct-field", "unmarshal-pointer-field",
              "marshal-float-field", "marshal-nested-struct-field", "marshal-int", "convert-nonpointer", "convert-pointer-to-int",
@@ -83,5 +83,5 @@ ApiCases == {"decode-nonpointer", "decode-into-int", "unmarshal-float-field", "u
              "hashio-unknown-NewHasherReaders", "hashio-unknown-NewHasherWriters", "gz-compressor-roundtrip",
              "debsig-on-zero-deb", "debsig-signature-member-only", "debsig-without-control-and-data", "close-deb-without-closer",
              "parsefile-missing-dsc", "parsefile-missing-changes", "parsefile-missing-control", "parsefile-missing-changelog",
-             "getdsc-listed-but-missing", "unmarshal-empty-number-fields", "stageset-without-stages"}
+             "getdsc-listed-but-missing", "unmarshal-empty-number-fields", "stageset-without-stages", "parsefile-named-pipe"}
 =============================================================================
